@@ -177,7 +177,9 @@ pub fn c03_judge(c: &C03Case, obs: &mut Obs) -> Result<(), String> {
         }
     } else if total.abs() < f32::MAX as f64 / 2.0 {
         let want = total as f32;
-        let slack = 2 + (ulp32((tm.cycle as f64 * tm.repeat.cycles().unwrap() as f64) as f32) / ulp32(want).max(f32::MIN_POSITIVE)).ceil() as u64;
+        // the implementation adds two rounded f32 quantities: allow the rounding of the larger
+        // addend expressed in ulps of the (possibly much smaller, e.g. cancelling) sum
+        let slack = 2u64.saturating_add((ulp32((tm.cycle as f64 * tm.repeat.cycles().unwrap() as f64) as f32) / ulp32(want).max(f32::MIN_POSITIVE)).ceil() as u64);
         if !(dur.is_finite() && ulps_between(dur, want) <= slack) {
             return Err(format!("duration() = {dur:?} but delay + cycle x (repeats+1) = {total} ({:?})", tm));
         }
@@ -303,6 +305,7 @@ pub fn c03(run: &mut Run) {
     for (l, f) in [("exact_domain", 0.3), ("tolerance_strict", 0.3), ("not_started", 0.2), ("active_interior", 0.5), ("ended", 0.2), ("reverse_falling", 0.1), ("cycle_ge_1", 0.2), ("boundary_repeat", 0.03), ("infinite", 0.1)] {
         run.require_label("c03_random", l, f);
     }
+    crate::fuzzdrv::campaign(run, "fz_c03", 3_200_000);
     // exhaustive / strided sweep of the f32 time axis
     let configs = sweep_configs();
     let stride: u64 = if run.tier == Tier::Quick { 64 } else { 1 };
